@@ -1163,9 +1163,13 @@ def gen_program(rng, big):
                 if keys:
                     key = rng.choice(keys)
                     same = [a for a in sorted(est) if est[a] == sections[sec][1][key]]
-                    aname = key if key in est and rng.random() < 0.7 else rng.choice(same or sorted(est))
-                    cfg.pop(aname, None)
-                    op['share'] = {aname: [sec, key]}
+                    # a Param carrying a value (value / default / constant) goes to a parameter of the kind it was written for
+                    # (the model does not convert values: 1 for a float configured as `True`)
+                    cands = same if key in sections[sec][2] else (same or sorted(est))
+                    aname = key if key in cands and rng.random() < 0.7 else rng.choice(cands) if cands else None
+                    if aname is not None:
+                        cfg.pop(aname, None)
+                        op['share'] = {aname: [sec, key]}
             pkeys = {a: est[a] for a in cfg if a in est and isinstance(cfg[a], dict)}
             pkeys.update({a: sections[sk[0]][1][sk[1]] for a, sk in (op.get('share') or {}).items()})
             if pkeys and rng.random() < 0.3:
@@ -1174,6 +1178,7 @@ def gen_program(rng, big):
                 if op.get('share') and rng.random() < 0.6:
                     members = sorted(set(members) | set(op['share']))
                 op['groups'] = {rng.choice(['grp', 'g1']): members}
+            op0 = op
             if rng.random() < 0.35:
                 # as the server does it: the section is loaded with the configuration, the module is created from it afterwards
                 ops.append(dict(op, op='load'))
@@ -1183,7 +1188,9 @@ def gen_program(rng, big):
             if ex.apply(op)['outcome'] == 'ok':
                 insts[name] = cls
             if 'cfg:' + name in ex.steps[-1]['after']:
-                sections[name] = (cls, pkeys)
+                valued = {a for a, c in cfg.items() if isinstance(c, dict) and {'value', 'default', 'constant'} & set(c)}
+                valued |= {a for a, sk in (op0.get('share') or {}).items() if sk[1] in sections[sk[0]][2]}
+                sections[name] = (cls, pkeys, valued)
         else:
             iname = rng.choice(sorted(insts))
             est = {k: v for k, v in kinds[insts[iname]].items() if v is not None and not is_cmd(v)}
